@@ -51,6 +51,7 @@ type Val struct {
 	Ghost               map[string]*Term
 	Lit                 *string // bytes-mode literal text, when known
 	ByValue             bool    // reference to an embedded (by-value) struct: '==' compares values
+	Boxed               *Val    // VIface made by a direct conversion of a pointer or slice: the boxed value (writes through it are modelled)
 	Bound               *Term   // allocation counter at the last modification of the heap keys this value was loaded from
 }
 
